@@ -140,7 +140,7 @@ def assumptions_text(pid):
 
 
 CONFIG = {
-    "C15": {"shard": 600},
+    "C15": {"shard": 600, "max_out_of_model": 0.10},  # integers beyond 2^53 against floats are outside the claim ("within the exactly-representable range")
     "C09": {"shard": 200},
     "C17": {"shard": 400},
     "C16": {"shard": 300}, "C20": {"shard": 90}, "C19": {"shard": 60}, "C18": {"shard": 400},
